@@ -277,6 +277,18 @@ impl World {
                 h.verifying_key = sk.verifying_key();
                 h.sign(&sk);
             }
+            // the attacker's well-linked mirror of the victim's chain
+            "ResignedLinked" => {
+                let sk = self.key(param);
+                h.verifying_key = sk.verifying_key();
+                if h.seq_num > 0 {
+                    let (l, s) = (h.extensions.log.clone(), self.aseq(h.seq_num));
+                    let prev_base = self.honest(&author, &l, s - 1);
+                    let prev = self.concretise("ResignedLinked", param, &prev_base, 0);
+                    h.backlink = Some(prev.hash);
+                }
+                h.sign(&sk);
+            }
             other => {
                 eprintln!("unknown forgery class {other}");
                 std::process::exit(2);
